@@ -489,6 +489,7 @@ pub fn write_evidence(check: &dyn Check, tier: Tier, verif_seed: u64, out: &Outc
         .set("faults_fired", map_json(&st.faults))
         .set("probes", map_json(&st.probes))
         .set("counters", map_json(&st.counters))
+        .set("ambient_sessions_note", "faults_fired.ambient-session-steps counts the steps a seeded second party took on the observed session's thread at the observed session's call boundaries (a quarter of the episodes; see ambient.rs): other datagrams parsed and read, a compound iterator and a view kept alive across the observed calls, the episode's own earlier deliveries parsed again, other builders measured / written / dropped, same-shape siblings of the observed configuration measured and written. It is a disturbance, not an oracle.")
         .set("inconclusive_panics", st.inconclusive_panics)
         .set("known_findings_hit", map_json(known_hits))
         .set("components", check.components())
